@@ -723,6 +723,52 @@ static void probe_reneg_without_binding()
 
 // Probe: both applications ask for a renegotiation at the same moment (ClientHello and
 // HelloRequest cross on the wire).
+// Directed grid: the renegotiation binding is *verified*, half by half.  One of the four 12-byte halves of the
+// stored Finished values (client's copy or server's copy, client_verify_data or server_verify_data) is changed by one
+// bit before a renegotiation starts - the situation of an endpoint whose peer is not the one of the previous
+// handshake.  Whoever receives the inconsistent renegotiation_info must abort with BR_ERR_BAD_SECRENEG, and no second
+// key change may happen.  (A man in the middle cannot show this: altering the extension also breaks Finished.)
+static void probe_reneg_binding_grid()
+{
+	static const Cfg PC[] = { { 0x009C, 0x0303 }, { 0x002F, 0x0301 }, { 0xCCA8, 0x0303 } };
+	for (const Cfg &cf : PC)
+	for (int holder = 0; holder < 2; holder++)         // whose copy is altered
+	for (int half = 0; half < 2; half++)               // 0: client_verify_data, 1: server_verify_data
+	for (int asker = 0; asker < 2; asker++)            // who asks for the renegotiation
+	for (int where = 0; where < 3; where++) {          // first, middle, last byte of the half
+		Profile cp, sp;
+		cp.suites = { cf.suite }; sp.suites = { cf.suite };
+		cp.vmin = cp.vmax = sp.vmin = sp.vmax = cf.version;
+		cp.layout = sp.layout = (where & 1) ? L_SPLIT : L_MONO;
+		BearClient c(cp);
+		BearServer s(sp);
+		VF_CHECK(c.reset() && s.reset(), "probe: reset");
+		Session S(&c, &s);
+		S.script[0].push_back(Item{ IT_WRITE, 10, true });
+		S.script[1].push_back(Item{ IT_WRITE, 10, true });
+		S.run(200000);
+		VF_CHECK(S.established && S.recvd[0] == 10 && S.recvd[1] == 10, "probe: handshake");
+		BearEndpoint *e[2] = { &c, &s };
+		size_t pos = (size_t)half * 12 + (where == 0 ? 0 : where == 1 ? 5 : 11);
+		e[holder]->eng->saved_finished[pos] ^= 0x10;
+		bool r = e[asker]->renegotiate();
+		VF_CHECK(r, "probe: renegotiate() refused on an idle connection");
+		S.run(200000);
+		std::string what = fmt("%s TLS%s: %s asks for a renegotiation while the %s's stored %s_verify_data differs in byte %zu from what the peer holds",
+			wt::suite_by_id(cf.suite)->name, ver_name(cf.version), asker ? "server" : "client", holder ? "server" : "client", half ? "server" : "client", pos % 12);
+		VF_CHECK(S.tap.epoch[0] <= 1 && S.tap.epoch[1] <= 1, "%s: the renegotiation completed (%d/%d key changes): it is not bound to the previous Finished values", what.c_str(), S.tap.epoch[0], S.tap.epoch[1]);
+		// the ClientHello carries client_verify_data (checked by the server); the ServerHello carries both (checked by the client)
+		int detector = half == 0 ? 1 : 0;
+		if (half == 0 && holder == 0) detector = 1;    // client sends a wrong value: the server refuses
+		if (half == 0 && holder == 1) detector = 1;    // server compares with its wrong copy: refuses
+		if (half == 1) detector = 0;                   // wrong server half, in the extension or in the client's copy: the client refuses
+		VF_CHECK(e[detector]->closed() && e[detector]->error() == BR_ERR_BAD_SECRENEG, "%s: the %s ends with error %d (closed=%d), expected BR_ERR_BAD_SECRENEG", what.c_str(), detector ? "server" : "client",
+			e[detector]->error(), (int)e[detector]->closed());
+		stats.cls("reneg-binding-grid");
+		stats.eval(fmt("bind/%04x/%d%d%d%d", cf.suite, holder, half, asker, where));
+	}
+}
+
 static void probe_simultaneous_reneg()
 {
 	for (int lay = 0; lay < 2; lay++) {
@@ -873,7 +919,7 @@ static bool probes_done = false;
 
 void target_run(Tape &t)
 {
-	if (!probes_done) { probes_done = true; probe_f11(); probe_reneg_without_binding(); probe_simultaneous_reneg(); probe_warning_while_closing(); probe_declined_hello_request_then_data(); probe_data_crossing_renegotiation(); }
+	if (!probes_done) { probes_done = true; probe_f11(); probe_reneg_binding_grid(); probe_reneg_without_binding(); probe_simultaneous_reneg(); probe_warning_while_closing(); probe_declined_hello_request_then_data(); probe_data_crossing_renegotiation(); }
 	unsigned m0 = t.u8();
 	if (m0 >= 224) { mode_foreign_reneg(t); return; }
 	unsigned m = m0 % 8;
